@@ -118,6 +118,10 @@ OpRules(st, e) ==
                             ELSE IF e.k < Len(e.seqs) THEN e.l = lk
                             ELSE e.l >= lk>>,
         <<"C17.n",          e.n = Len(NewHist(st, e)) - Len(st.hist)>>,
+        (* C05: a sequence is written atomically - when the call stops in    *)
+        (* front of sequence k+1 nothing of that sequence has been consumed, *)
+        (* not even its literals                                             *)
+        <<"C05.nothing_of_failing", (~NoErr(e) /\ e.k < Len(e.seqs)) => e.l = lk>>,
         <<"C05.block_untouched", e.untouched>> }
     [] e.op = "read" -> {
       <<"C04.read_out", /\ Len(e.out) = Min(e.max, Len(st.hist) - st.rd)
@@ -131,7 +135,8 @@ OpRules(st, e) ==
       <<"C04.r_pos",    e.r + (Len(st.hist) - Len(e.data)) = st.rd + e.accepted>>,
       <<"C18.err_is_writers", e.err = e.werr>> }
     [] e.op = "dreset" -> {
-      <<"C04.reset", e.data = <<>> /\ e.r = 0 /\ e.off = 0>> }
+      <<"C04.reset", e.data = <<>> /\ e.r = 0>>,
+      <<"C17.off",   e.off = 0>> }
     [] e.op = "panic"    -> { <<"C05.no_panic", FALSE>> }
     [] e.op = "timeout"  -> { <<"C06.timeout", FALSE>> }
     [] OTHER -> { <<"C00.unknown_op", FALSE>> }
